@@ -12,6 +12,8 @@ CONSTANTS
  AllowWith = TRUE
  AllowVars = FALSE
  MaxUses = 1
+ AllowFlat = FALSE
+ MoveAfterRename = FALSE
  OldWith = FALSE
  RestoreOwn = FALSE
 INVARIANTS FlagAsMeant StackDepth CaptureFree NoCollision PublicUnchanged NoReserved WithOwn WithCross Emit
